@@ -248,7 +248,7 @@ def s_ptr_write(E, a, info):
     return UNIT
 
 
-@summ('core::ptr::drop_in_place', 'core::ptr::mut_ptr::<impl *mut T>::drop_in_place')
+@summ('core::ptr::drop_in_place', 'core::ptr::mut_ptr::<impl *mut T>::drop_in_place', 'drop_in_place')
 def s_drop_in_place(E, a, info):
     ty = info['gen'][0] if info['gen'] else 'T'
     v = E.read(a[0])
